@@ -54,7 +54,7 @@ def lattice_trials(tier):
   for sizes in ([1], [2], [3], [2, 2], [2, 3], [3, 1], [3, 3]):
     d = len(sizes)
     for mono in itertools.product(mono_vals, repeat=d):
-      for uni in itertools.product(uni_vals, repeat=d) if d == 1 else ([0] * d, [0, 1], [1, 0], ["valley", -1], [0, "peak"]):
+      for uni in itertools.product(uni_vals, repeat=d) if d == 1 else ([0] * d, [0, 1], [1, 0], ["valley", -1], [0, "peak"], ["peak", 0]):
         uni = list(uni)
         if d == 1:
           tsets = [None]
@@ -69,6 +69,24 @@ def lattice_trials(tier):
                 continue
               trials.append(dict(kind="lattice", sizes=sizes, mono=list(mono), uni=uni, trusts=ts,
                                  fam=fam, lo=bounds[0], hi=bounds[1]))
+  # larger / even sizes (the unimodal initialisers and projections branch on size parity)
+  for sizes in ([4], [5], [6], [3, 4], [4, 2], [4, 4], [2, 5]):
+    d = len(sizes)
+    for mono in itertools.product([0, 1, "decreasing"], repeat=d):
+      for uni in itertools.product([0, 1, -1, "peak"], repeat=d):
+        for bounds in ((None, None), (0.0, 1.0)):
+          trials.append(dict(kind="lattice", sizes=sizes, mono=list(mono), uni=list(uni), trusts=None,
+                             fam="edgeworth_trusts", lo=bounds[0], hi=bounds[1]))
+  # multi-unit layers, lattice_sizes given as a list or as a tuple, every constraint family + regularizers
+  for sizes in ([2, 2], [3, 2], [2, 3, 2]):
+    for as_tuple in (False, True):
+      for units in (2, 3):
+        for key, val in ((None, None), ("edgeworth_trusts", [(0, 1, 1)]), ("trapezoid_trusts", [(0, 1, -1)]),
+                         ("monotonic_dominances", [(0, 1)]), ("range_dominances", [(1, 0)]),
+                         ("joint_monotonicities", [(0, 1)]), ("bounds", (0.0, 1.0)), ("bounds", (None, 1.0)),
+                         ("kernel_regularizer", ("laplacian", 0.1, 0.2)), ("kernel_regularizer", ("torsion", 0.1, 0.2)),
+                         ("kernel_regularizer", [("laplacian", [0.1] * len(sizes), 0.0), ("torsion", 0.0, 0.3)])):
+          trials.append(dict(kind="latticeU", sizes=sizes, as_tuple=as_tuple, units=units, key=key, val=val))
   # 3-d lattices: every pair of (family, (main, cond, direction)) trusts - conflicts that need 3 dims
   triples = [(m, c, s) for m in range(3) for c in range(3) if m != c for s in (1, -1)]
   singles = [(f, t) for f in ("edgeworth_trusts", "trapezoid_trusts") for t in triples]
@@ -160,12 +178,52 @@ def lattice_exercise(layer_and_cfg):
   ok = np.all(np.isfinite(out))
   # evaluation on the grid with the layer's own (single-unit) kernel and a projected one
   X = rl.input_grid(sizes, fine=False, outside=True).astype(np.float32)
+  lu = int(layer.units)
+  if lu > 1:
+    X = np.repeat(X[:, None, :], lu, axis=1)
   y0 = np.asarray(layer(tf.constant(X)))
-  layer.kernel.assign(out[:, 5:6])
+  layer.kernel.assign(out[:, 5:5 + lu])
   y1 = np.asarray(layer(tf.constant(X)))
+  # the same configuration with simplex interpolation (same kernel) and, in range, without clipping
+  cfg = layer.get_config()
+  cfg["interpolation"] = "simplex"
+  twin = type(layer).from_config(cfg)
+  twin.build((None, len(sizes)) if lu == 1 else (None, lu, len(sizes)))
+  twin.kernel.assign(layer.kernel.numpy())
+  y2 = np.asarray(twin(tf.constant(X)))
+  Xi = rl.input_grid(sizes, fine=False, outside=False).astype(np.float32)
+  if lu > 1:
+    Xi = np.repeat(Xi[:, None, :], lu, axis=1)
+  for interp in ("hypercube", "simplex"):
+    cfg["interpolation"] = interp
+    cfg["clip_inputs"] = False
+    nc = type(layer).from_config(cfg)
+    nc.build((None, len(sizes)) if lu == 1 else (None, lu, len(sizes)))
+    nc.kernel.assign(layer.kernel.numpy())
+    ok = ok and np.all(np.isfinite(np.asarray(nc(tf.constant(Xi)))))
+  ok = ok and all(np.all(np.isfinite(np.asarray(l))) for l in layer.losses)
   layer.finalize_constraints()
   layer.assert_constraints(eps=1e9)
-  return bool(ok and np.all(np.isfinite(y0)) and np.all(np.isfinite(y1)))
+  return bool(ok and np.all(np.isfinite(y0)) and np.all(np.isfinite(y1)) and np.all(np.isfinite(y2)))
+
+
+def latticeU_build(t):
+  tf, tfl = bind.bind()
+  sizes = list(t["sizes"])
+  d = len(sizes)
+  kw = dict(lattice_sizes=tuple(sizes) if t["as_tuple"] else sizes, units=t["units"], monotonicities=[1] * d)
+  if t["key"] == "bounds":
+    kw["output_min"], kw["output_max"] = t["val"]
+  elif t["key"] == "kernel_regularizer":
+    v = t["val"]
+    kw["kernel_regularizer"] = [tuple(x) for x in v] if isinstance(v[0], (list, tuple)) else tuple(v)
+  elif t["key"] is not None:
+    kw[t["key"]] = [tuple(v) for v in t["val"]]
+  def build():
+    layer = tfl.layers.Lattice(**kw)
+    layer.build((None, t["units"], d))
+    return layer, sizes
+  return build
 
 
 def lattice_build(t):
@@ -332,8 +390,11 @@ def linear_trials(tier):
   for n in (1, 2, 3):
     for mono in list(itertools.product([0, 1, -1], repeat=n)) + [["increasing"] * n, ["decreasing", 0, 0][:n], [2] * n, 1, "none"]:
       for dom in (None, ("md", [(0, 1)]), ("md", [(1, 0), (0, 1)]), ("md", [(0, 3)]), ("rd", [(0, 1)]),
-                  ("rd-nobounds", [(0, 1)]), ("rd-zero", [(0, 1)]), ("rd-inverted", [(0, 1)]), ("both", None)):
+                  ("rd-nobounds", [(0, 1)]), ("rd-zero", [(0, 1)]), ("rd-inverted", [(0, 1)]), ("both", None),
+                  ("rd-unrelated-zero", [(0, 1)])):
         if dom is not None and n < 2:
+          continue
+        if dom is not None and dom[0] == "rd-unrelated-zero" and n < 3:
           continue
         for norm in (None, 1, 2):
           if tier == "quick" and norm == 2 and dom is not None:
@@ -393,6 +454,8 @@ def linear_build(t):
       kw["range_dominances"] = pairs
       if kind == "rd":
         kw["input_min"] = [0.0] * n; kw["input_max"] = [1.0, 2.0, 3.0][:n]
+      elif kind == "rd-unrelated-zero":
+        kw["input_min"] = [0.0, 0.0, 1.0]; kw["input_max"] = [1.0, 2.0, 1.0]
       elif kind == "rd-zero":
         kw["input_min"] = [1.0] * n; kw["input_max"] = [1.0] + [2.0] * (n - 1)
       elif kind == "rd-inverted":
@@ -755,6 +818,7 @@ def synonym_case(item):
 # ------------------------------------------------------------------- driver
 FAMILIES = {
     "lattice": (lattice_expect, lattice_build, lattice_exercise),
+    "latticeU": (lambda t: "accept", latticeU_build, lattice_exercise),
     "lattice2": (lattice2_expect, lattice2_build, lattice_exercise),
     "lattice3": (lattice3_expect, lattice3_build, lattice_exercise),
     "lattice3s": (lambda t: "accept", lattice3s_build, lattice_exercise),
@@ -825,6 +889,8 @@ def work(ctx, chunk):
         sig["trusts_shape"] = ("none" if t["trusts"] is None else "tuple" if isinstance(t["trusts"], tuple) else "list")
       if t["kind"] == "lattice2":
         sig["key"] = t["key"]
+      if t["kind"] == "latticeU":
+        sig["key"] = str(t["key"]); sig["as_tuple"] = int(t["as_tuple"])
       if t["kind"] == "premade":
         sig["variant"] = t["variant"]
       if t["kind"] == "synonym":
